@@ -326,6 +326,7 @@ func init() {
 			"sauth:S1:0:1:G1", "sauth:S1:0:4:G1", "sauth:S1:1:1:G1", "sauth:S1:1:4:G1", "sauth:S2:0:1:G1", "sauth:S2:1:1:G1",
 			"sauth:S1:0:1:G2", "sauth:S1:1:1:temp", "sauth:S3:0:1:srv",
 			"sauth:S1:0:1:G1:9:stale", "sauth:S2:0:1:G1:9:staleport",
+			"touch",
 			"sauth:S3:0:1:G1:255", "sauth:S3:0:1:G1:256", "sauth:S3:0:1:G1:300:staletail", // longest location the wire format carries; one byte more; an over-long one whose tail was altered after signing
 		}
 		depth := 4
